@@ -2,6 +2,7 @@ package props
 
 import (
 	"verif/harness/ev"
+	"verif/harness/gen"
 	"verif/harness/rt"
 )
 
@@ -62,3 +63,53 @@ func chunkBytes(h *rt.H, c *codec) {
 func CHUNK_cborl(h *rt.H)  { chunkBytes(h, cborCodec) }
 func CHUNK_ubjson(h *rt.H) { chunkBytes(h, ubjsonCodec) }
 func CHUNK_json(h *rt.H)   { chunkBytes(h, jsonCodec) }
+
+// shapedDoc builds a valid document of the codec from a generated value with
+// symbolic scalars and symbolically chosen representation (widths, markers,
+// definite/indefinite, counted/typed, whitespace).
+func shapedDoc(h *rt.H, c *codec) []byte {
+	v := gen.Value(h, genCfg(h))
+	switch c {
+	case cborCodec:
+		// REP=0: one width choice per document for lengths and integers; REP=1: the
+		// width of every integer is chosen separately
+		rep := h.Choose("rep", 0, 4)
+		o := gen.CBOROpts{Width: []int{0, 1, 2, 4, 8}[rep], Indef: h.Choose("indef", 0, 1) == 1, IntW: rep}
+		if h.Param("REP", 0) == 1 {
+			o.IntW = -1
+		}
+		return gen.EncodeCBOR(h, v, o, nil)
+	case ubjsonCodec:
+		rep := h.Choose("rep", 0, 4)
+		m := []byte{'i', 'U', 'I', 'l', 'L'}[rep]
+		o := gen.UBJOpts{Container: h.Choose("container", 0, 3), LenMarker: m, IntMarker: m}
+		if o.Container == 3 {
+			o.Container, o.Noop = 0, true
+		}
+		if h.Param("REP", 0) == 1 {
+			o.IntMarker = 0
+		}
+		return gen.EncodeUBJSON(h, v, o, nil)
+	}
+	return gen.JSONText(h, v, gen.JSONOpts{WS: h.Choose("ws", 0, 4)}, nil)
+}
+
+// chunkShape: a shaped valid document x (every single cut position | all single bytes).
+func chunkShape(h *rt.H, c *codec) {
+	doc := shapedDoc(h, c)
+	n := len(doc)
+	cuts := make([]bool, n)
+	pos := h.Choose("cutpos", 0, n-1) // n-1: every byte its own chunk
+	if pos == n-1 {
+		for i := range cuts {
+			cuts[i] = true
+		}
+	} else {
+		cuts[pos] = true
+	}
+	chunkCheck(h, c, doc, cuts)
+}
+
+func CHUNK_Shape_cborl(h *rt.H)  { chunkShape(h, cborCodec) }
+func CHUNK_Shape_ubjson(h *rt.H) { chunkShape(h, ubjsonCodec) }
+func CHUNK_Shape_json(h *rt.H)   { chunkShape(h, jsonCodec) }
